@@ -198,6 +198,23 @@ Theorem cache_hit_spec : forall sc c ch fuel e pre q rest a,
 Proof. exact cache_hit_general_resolve. Qed.
 Print Assumptions cache_hit_spec.
 
+(* the definitions the statements above use (Proofs/Resol*.v), for the reader of the check log *)
+Print ev_in_lifetime.
+Print drops.
+Print ev_drops.
+Print is_trunc.
+Print ev_trunc_udp.
+Print accepts.
+Print nx_accepts.
+Print is_yx.
+Print nonterminal.
+Print nx_cached.
+Print cache_after.
+Print chain_path.
+Print stops_at.
+Print soa_at.
+Print min_over.
+
 (* ---------- non-vacuity: a concrete run satisfying all hypotheses ---------- *)
 Definition ex_n1 : name := [[104]; [97]; []].
 Definition ex_n2 : name := [[104]; []].
